@@ -20,7 +20,7 @@ import onnx
 from harness import buildlib as B
 from harness.common import Run
 
-CONE = ["Base.v", "IR.v", "Show.v", "Build.v", "Sem.v", "Plan.v", "Named.v", "Validate.v", "BuildFacts.v", "SemFacts.v", "DfsFacts.v", "CompilePres.v", "ScopeFacts.v", "EmitFacts.v"]
+CONE = ["Base.v", "IR.v", "Show.v", "Build.v", "Sem.v", "Plan.v", "Named.v", "Validate.v", "BuildFacts.v", "SemFacts.v", "DfsFacts.v", "CompilePres.v", "ScopeFacts.v", "EmitFacts.v", "ReachFacts.v", "DiscoverFacts.v", "CoverageFacts.v"]
 PROPS = "props/C04.v"
 F32 = np.float32
 op = B.op17
@@ -391,6 +391,14 @@ def run(run: Run) -> int:
             run.fail("corr", "C04/emission-premises-not-met", "a program that builds does not satisfy the premises of "
                      "C04_build_main_emits_at_most_once (duplicate-free traversal order, no graph twice in the graph tree)", B.describe(c))
             break
+    cprem = B.cover_premises(run, "c04cov", [c.coq for c in built])
+    n_cprem = sum(cprem)
+    for c, ok in zip(built, cprem):
+        if not ok:
+            run.fail("corr", "C04/coverage-premises-not-met", "a program that builds does not satisfy the premises of "
+                     "C04_emitted_iff_a_requested_output_depends_on_it_by_construction (acyclic object graph within the fuel, subgraph "
+                     "attributes only on operator / function nodes)", B.describe(c))
+            break
     out_hist = collections.Counter()
     n_bad = 0
     distinct = set()
@@ -424,6 +432,7 @@ def run(run: Run) -> int:
         "traces_validated_against_impl": len([c for c in cases if c.coq is not None]) - len(mism),
         "disagreements_checked": len(mism), "direct_oracle_failures": n_bad,
         "emission_theorem_premises_met": f"{n_prem} of {len(built)} programs that build",
+        "coverage_theorem_premises_met": f"{n_cprem} of {len(built)} programs that build",
         "input_distribution": {"outcomes": dict(out_hist), "operators_random_part": g.hist},
         "samples": [B.describe(c) for c in (cases[0], cases[n_skel // 2], cases[-1])],
     }
